@@ -14,7 +14,11 @@ def cents(x):
 
 
 # lines that are signed by design (documented): the NC "refund" helper is +refund / -amount due
-SIGNED_BY_DESIGN = {'nc_d-400.refund'}
+SIGNED_BY_DESIGN = {
+    'nc_d-400.refund',      # helper line: + refund / - amount due
+    '8995.11',              # "taxable income before the QBI deduction": Form 1040 line 11 minus line 12, with NO floor on
+                            # the form (i8995: plain subtraction); the floor is on line 13 ("if zero or less, enter -0-")
+}
 
 
 def oracle_c15(r):
@@ -116,7 +120,7 @@ def bump(inputs, key, delta):
     return out
 
 
-def oracle_c16(r, rng, budget):
+def oracle_c16(r, rng, budget, all_steps=False):
     """metamorphic checks on one solved real return; returns (problems, number of variant pairs compared)"""
     probs, pairs = [], 0
     if r['exception'] is not None or not r['ok']:
@@ -146,16 +150,40 @@ def oracle_c16(r, rng, budget):
                               {'form': form, 'perm': perm}))
                 break
     tax0 = cents(bv.get('1040.24', 0.0))
+    nc0 = cents(bv['nc_d-400.19']) if 'nc_d-400.19' in bv else None
     net0 = cents(bv.get('1040.34', 0.0)) - cents(bv.get('1040.37', 0.0))
-    # (b) more wages never lower total tax ; (d) withholding moves refund-minus-owed one for one
+    # (b) more wages never lower total tax (federal line 24, NC line 19) ; (d) withholding moves refund-minus-owed one for one
     if count_of(inputs, 'w-2') >= 1:
-        for delta in rng.sample([1, 10, 250, 1000.5, 7777.77, 20000, 50000], 3):
-            var = so.rerun_with(r, file_inputs=bump(inputs, 'w-2:0.box_1', delta))
+        def wage_pair(base_inputs, t0, n0, delta, label):
+            nonlocal pairs
+            var = so.rerun_with(r, file_inputs=bump(base_inputs, 'w-2:0.box_1', delta), policy=r.get('policy'))
             if var['exception'] is None and var['ok']:
                 pairs += 1
-                tax1 = cents(sc.values_of(var).get('1040.24', 0.0))
-                if tax1 < tax0:
-                    probs.append(('wages-lower-tax', f'wages +{delta} lower total tax from {tax0/100} to {tax1/100}', {'delta': delta}))
+                vv = sc.values_of(var)
+                tax1 = cents(vv.get('1040.24', 0.0))
+                if tax1 < t0:
+                    probs.append(('wages-lower-tax', f'{label}wages +{delta} lower total tax from {t0/100} to {tax1/100}', {'delta': delta, 'label': label}))
+                if n0 is not None and 'nc_d-400.19' in vv and cents(vv['nc_d-400.19']) < n0:
+                    probs.append(('wages-lower-nc-tax', f'{label}wages +{delta} lower NC tax (D-400 line 19) from {n0/100} to {cents(vv["nc_d-400.19"])/100}', {'delta': delta, 'label': label}))
+        for delta in rng.sample([1, 10, 250, 1000.5, 7777.77, 20000, 50000], 3):
+            wage_pair(inputs, tax0, nc0, delta, '')
+        # step tables (tax table rows, NC child deduction bands, phase-outs) change at round amounts of income: move the
+        # wages so that federal AGI sits just below a round threshold and add a little
+        agi0 = cents(bv.get('1040.11', 0.0))
+        STEPS = [20000, 30000, 40000, 45000, 60000, 75000, 80000, 90000, 100000, 105000, 120000, 140000]
+        for T in (STEPS if all_steps else rng.sample(STEPS, budget + 2)):
+            shift = T * 100 - 5000 - agi0            # AGI -> T - 50
+            w0 = cents(float(inputs.get('w-2:0.box_1', '0') or 0))
+            if w0 + shift < 0:
+                continue
+            moved = bump(inputs, 'w-2:0.box_1', shift / 100)
+            # the moved return may need inputs the base return never asked for: the scenario's own (deterministic) policy answers them
+            mv = so.rerun_with(r, file_inputs=moved, policy=r.get('policy'))
+            if mv['exception'] is None and mv['ok']:
+                mvv = sc.values_of(mv)
+                moved = sc.inputs_of(mv)
+                wage_pair(moved, cents(mvv.get('1040.24', 0.0)), cents(mvv['nc_d-400.19']) if 'nc_d-400.19' in mvv else None,
+                          100, f'at AGI {T - 50}: ')
         for delta in rng.sample([0.01, 1, 99.99, 500, 1234.56, 10000], 3):
             var = so.rerun_with(r, file_inputs=bump(inputs, 'w-2:0.box_2', delta))
             if var['exception'] is None and var['ok']:
